@@ -118,6 +118,30 @@ theorem C09_chunk_independent (s : Bytes) (cs : List Bytes) (hcs : cs.flatten = 
   simp only at k2 k3 o2 o3
   rw [k2, k3, o2, o3]
 
+/-- **The malformed-entry clause.**  Let the stream be well-formed entries `goods`, then an entry
+    `bad` that the entry parser rejects (valid UTF-8, one block of lines), each followed by a
+    blank line, then any valid UTF-8 `tail`.  For EVERY way of cutting it into writes: all
+    writes before the one whose bytes complete `bad` succeed, that write (index `i`) fails, and
+    the entries collected at that failure are exactly `goods`, in order. -/
+theorem C09_malformed_entry (goods : List Bytes) (bad tail : Bytes) (hs : BadStream goods bad tail)
+    (cs : List Bytes) (hcs : cs.flatten = T (goods ++ [bad]) ++ tail) :
+    ∃ i st', firstFail Stream.init cs = some (i, st') ∧ st'.entries = goods.map entryOf ∧
+      (cs.take i).flatten.length < (T (goods ++ [bad])).length ∧
+      (T (goods ++ [bad])).length ≤ (cs.take (i + 1)).flatten.length := by
+  have := firstFail_chunks goods bad tail hs Stream.init cs 0 (by rw [hcs]; exact inv2_init goods bad tail)
+  simpa using this
+
+/-- non-vacuity: `COMMENT=x` alone is a single block of valid UTF-8 that the parser rejects
+    (required variables missing), so with the witness record in front it is a `BadStream` -/
+example : (∀ s, Summary.parse (asciiBytes "COMMENT=x") ≠ .ok s) ∧
+    Clean (asciiBytes "COMMENT=x") ∧ Complete (asciiBytes "COMMENT=x") := by
+  refine ⟨?_, ⟨by decide, by decide, by decide, by decide⟩, by unfold Complete; decide⟩
+  intro s h
+  have : (match Summary.parse (asciiBytes "COMMENT=x") with | .ok _ => true | .error _ => false) = false := by
+    decide +kernel
+  rw [h] at this
+  cases this
+
 /-- non-vacuity: a complete entry whose COMMENT ends in a two-byte character … -/
 def witnessRecord : Bytes :=
   asciiBytes "BUILD_DATE=d\nCATEGORIES=c\nCOMMENT=caf" ++ [0xC3, 0xA9] ++
